@@ -140,9 +140,12 @@ def check(ctx):
     chains = [s["chain"] for s in c.scn_lines(c.tlc_must_pass(ctx, "chains", "Plugins.tla", "Plugins_emit.cfg", timeout=600, workers=wk))]
     chains.sort(key=lambda ch: (len(ch), ch))
     chosen = pick_chains_quick(chains, rnd) if quick else chains
+    if quick:       # plus a seeded sample of the remaining chains
+        rest = [ch for ch in chains if ch not in chosen]
+        chosen = chosen + rnd.sample(rest, 60)
     tests = os.path.join(c.REPO, "tests")
     files = sorted(glob.glob(os.path.join(tests, "*.dlt"))) + [os.path.join(tests, "can_example1.asc")]
-    nfile = 120 if quick else 250
+    nfile = 150 if quick else 300
     plan = []
 
     def add(**kw):
@@ -151,8 +154,8 @@ def check(ctx):
         plan.append(kw)
     for j, ch in enumerate(chosen):
         add(chain=ch, stream="mixed")
-        if quick or j % 3 == 0:
-            add(chain=ch, stream="file", file=files[j % len(files)], n=nfile)
+        add(chain=ch, stream="mixed")          # a second shuffle / payload variant
+        add(chain=ch, stream="file", file=files[j % len(files)], n=nfile)
         if "anon" in ch and (quick or j % 10 == 0):
             add(chain=ch, stream="kf")
     for ch in [[], ["nonverbose"], ["can", "rewrite"], ["ft_drop", "export"]]:
@@ -161,6 +164,9 @@ def check(ctx):
         add(chain=["anon"], stream="lc")
     for j in range(2 if quick else 10):
         add(chain=["rewrite", "anon"], stream="lc")
+    for j in range(1 if quick else 6):
+        add(chain=["anon"], stream="ids")
+    add(chain=["nonverbose", "anon", "rewrite"], stream="ids")
     for f in files:
         if f.endswith(".dlt"):
             add(chain=["anon"], stream="binanon", file=f, n=300 if quick else 3000)
